@@ -32,9 +32,9 @@ Theorem C08_single_cell_query : forall s t c r,
   snd (step s (Get {| a_t := TIdx t; a_c := CIdx c; a_r := RIdx r |})) = OQueries [uid_of t c (Some r)] (s_args (flush s)).
 Proof. exact single_cell_query_uid. Qed.
 
-(* numeric and A1-style / sheet-title addressing name the same cell *)
+(* numeric and A1-style / sheet-title addressing name the same cell (rows are 1-based in A1 style: row 0 is rejected) *)
 Theorem C08_addressing_agree : forall ts n i l k d z,
-  title_index ts n = Ok i -> column_index_from_string l = Ok k -> d <> ""%string -> int_of_string d = Ok z ->
+  title_index ts n = Ok i -> column_index_from_string l = Ok k -> d <> ""%string -> int_of_string d = Ok z -> (1 <= z)%Z ->
   handle ts {| a_t := TName n; a_c := CLetters l; a_r := RDigits d |} =
   handle ts {| a_t := TIdx i; a_c := CIdx (k - 1); a_r := RIdx (z - 1) |}.
 Proof. exact addressing_agree. Qed.
